@@ -484,6 +484,18 @@ impl Engine for RecvEngine {
                 }
                 obs
             }
+            "mr" if t.len() >= 3 => {
+                // C17 last clause at the MultiReceiver: idle sessions (session time-out 1 ms, NO object
+                // time-out, one undecodable object each) are released by cleanup.  Oracle only.
+                let n: u64 = t[2].parse().unwrap_or(1);
+                let r = guarded(move || idle_sessions(n));
+                match r {
+                    Ok(Ok(())) => {}
+                    Ok(Err(why)) => o.fail("C17:idle-session-not-released", &why),
+                    Err(loc) => o.fail(&panic_class(&loc), &format!("MultiReceiver panics at {}", loc)),
+                }
+                "ok".into()
+            }
             "sleep" if t.len() >= 3 => {
                 std::thread::sleep(Duration::from_millis(t[2].parse().unwrap_or(0)));
                 "ok".into()
@@ -607,6 +619,42 @@ impl Engine for RecvEngine {
     fn end_case(&mut self, _o: &mut Oracle) {
         self.drop_rx();
     }
+}
+
+struct Closed(Rc<Cell<u64>>);
+impl flute::receiver::MultiReceiverListener for Closed {
+    fn on_session_open(&self, _e: &flute::receiver::ReceiverEndpoint) {}
+    fn on_session_closed(&self, _e: &flute::receiver::ReceiverEndpoint) {
+        self.0.set(self.0.get() + 1);
+    }
+}
+
+fn idle_sessions(n: u64) -> Result<(), String> {
+    let log: Log = Rc::new(RefCell::new(Vec::new()));
+    let builder = Rc::new(RecBuilder { log, cur_fdt: Rc::new(Cell::new(0)) });
+    let config = RxConfig { session_timeout: Some(Duration::from_millis(1)), object_timeout: None, ..Default::default() };
+    let mut mr = flute::receiver::MultiReceiver::new(builder, Some(config), false);
+    let closed = Rc::new(Cell::new(0u64));
+    mr.add_listener(Closed(closed.clone()));
+    let ep = UDPEndpoint::new(None, "224.0.0.1".to_string(), 5000);
+    let now = st(gen::T0);
+    for tsi in 0..n {
+        // one packet of an object that can never be decoded (no FDT, no in-band FTI)
+        let p = gen::mk_pkt_tsi(100 + tsi, 9, 0);
+        mr.push(&ep, &p, now).map_err(|e| format!("push: {:?}", e))?;
+    }
+    if mr.nb_objects() as u64 != n {
+        return Err(format!("{} objects after one packet on each of {} sessions", mr.nb_objects(), n));
+    }
+    std::thread::sleep(Duration::from_millis(5));
+    mr.cleanup(now);
+    if mr.nb_objects() != 0 || closed.get() != n {
+        return Err(format!(
+            "{} sessions idle beyond their 1 ms session time-out (object time-out None, one pending object each): after cleanup nb_objects() = {}, {} sessions closed",
+            n, mr.nb_objects(), closed.get()
+        ));
+    }
+    Ok(())
 }
 
 pub fn unhex(s: &str) -> Option<Vec<u8>> {
